@@ -136,6 +136,9 @@ def parse_input_const_value_node(
         return generate_constant(None)
 
     if isinstance(node, EnumValueNode):
+        if nested_object:
+            # field_type is the input type here, model_validate turns names into members
+            return generate_constant(node.value)
         return generate_name(f"{field_type}.{node.value}")
 
     if isinstance(node, ListValueNode):
